@@ -2,7 +2,7 @@
    (C32/Spec.v); encf is a prefix code up to veq; dict order does not matter; the key is injective. *)
 From Coq Require Import List NArith ZArith Bool Lia Permutation Sorted.
 Import ListNotations.
-From Cffi Require Import C35.PyStr C35.Model C35.Proofs C25.Model C25.Proofs C24.Utf8.
+From Cffi Require Import C35.PyStr C35.Model C35.Lemmas C25.Model C25.Proofs C24.Utf8.
 From Cffi Require Import C32.PyStr C32.Model C32.Spec C32.Gen.
 Open Scope N_scope.
 
